@@ -8,7 +8,9 @@
 (*   parser: an ARBITRARY consumer: before every read it may decide to       *)
 (*           return (a syntax error at that token, or the end of a           *)
 (*           successful parse); a read on the closed channel yields the last *)
-(*           token again; on return it closes `done`                         *)
+(*           token again; on return it closes `done` and WAITS for the lexer *)
+(*           to exit (ppc "closing" -> "returned"): no goroutine outlives    *)
+(*           the call                                                        *)
 (*                                                                           *)
 (* Variants select the code being modelled:                                  *)
 (*   CloseOnError  errorf closes the channel (FALSE = Defect_NoCloseOnError) *)
@@ -26,7 +28,7 @@ VARIABLES Toks,     \* the token stream: a sequence over {"T", "EOF", "ERROR"} e
           lpc,      \* lexer: "send" (has token lidx to send) | "exited"
           lidx,     \* index of the token the lexer is about to send
           closed,   \* token channel closed
-          ppc,      \* parser: "run" | "returned"
+          ppc,      \* parser: "run" | "closing" (done closed, waiting for the lexer to exit) | "returned"
           got,      \* number of tokens the parser has received from the channel
           done,     \* done channel closed (only with Drain)
           nbuf      \* tokens sitting in the channel's buffer
@@ -60,27 +62,33 @@ RecvBuf == /\ ppc = "run" /\ nbuf > 0
 (* a read on the closed channel returns immediately with the last token *)
 ReadClosed == /\ ppc = "run" /\ closed
               /\ UNCHANGED vars
-(* the parser stops consuming: syntax error, or the tree is complete *)
+(* the parser stops consuming: syntax error, or the tree is complete.  With Drain it closes `done` and waits for the lexer *)
 ParserReturn == /\ ppc = "run"
-                /\ ppc' = "returned"
+                /\ ppc' = IF Drain THEN "closing" ELSE "returned"
                 /\ done' = Drain
                 /\ UNCHANGED <<lpc, lidx, closed, got, Toks, nbuf>>
-(* with `done` closed a send does not block: the token is dropped and tokenising goes on to the end *)
+Join == /\ ppc = "closing" /\ lpc = "exited"
+        /\ ppc' = "returned"
+        /\ UNCHANGED <<lpc, lidx, closed, got, done, Toks, nbuf>>
+(* with `done` closed a send does not block: the token is dropped and the lexer stops tokenising (it exits without closing the
+   token channel - nobody reads it any more) *)
 DropToken == /\ lpc = "send" /\ done
-             /\ AfterToken(lidx)
-             /\ UNCHANGED <<ppc, got, done, Toks, nbuf>>
+             /\ lpc' = "exited"
+             /\ UNCHANGED <<lidx, closed, ppc, got, done, Toks, nbuf>>
 
 (* both goroutines are gone: the only state in which nothing more happens *)
 Terminated == lpc = "exited" /\ ppc = "returned" /\ UNCHANGED vars
-Next == Handoff \/ SendBuf \/ RecvBuf \/ ParserReturn \/ DropToken \/ Terminated
-Spec == Init /\ [][Next]_vars /\ WF_vars(Handoff) /\ WF_vars(SendBuf) /\ WF_vars(RecvBuf) /\ WF_vars(DropToken) /\ WF_vars(ParserReturn)
+Next == Handoff \/ SendBuf \/ RecvBuf \/ ParserReturn \/ Join \/ DropToken \/ Terminated
+Spec == Init /\ [][Next]_vars /\ WF_vars(Handoff) /\ WF_vars(SendBuf) /\ WF_vars(RecvBuf) /\ WF_vars(DropToken) /\ WF_vars(ParserReturn) /\ WF_vars(Join)
 (* a parser that wants to read and will not return by itself: used to expose blocking *)
-SpecStubborn == Init /\ [][Handoff \/ SendBuf \/ RecvBuf \/ DropToken \/ (ParserReturn /\ (closed \/ got = Len(Toks)))]_vars
-                /\ WF_vars(Handoff) /\ WF_vars(SendBuf) /\ WF_vars(RecvBuf) /\ WF_vars(DropToken)
+SpecStubborn == Init /\ [][Handoff \/ SendBuf \/ RecvBuf \/ DropToken \/ Join \/ (ParserReturn /\ (closed \/ got = Len(Toks)))]_vars
+                /\ WF_vars(Handoff) /\ WF_vars(SendBuf) /\ WF_vars(RecvBuf) /\ WF_vars(DropToken) /\ WF_vars(Join)
 
-TypeOK == lpc \in {"send", "exited"} /\ lidx \in 1..Len(Toks) /\ ppc \in {"run", "returned"} /\ got \in 0..Len(Toks) /\ nbuf \in 0..Cap
-(* no goroutine is left behind: once the parser has returned the lexer exits *)
-LexerExits == (ppc = "returned") ~> (lpc = "exited")
+TypeOK == lpc \in {"send", "exited"} /\ lidx \in 1..Len(Toks) /\ ppc \in {"run", "closing", "returned"} /\ got \in 0..Len(Toks) /\ nbuf \in 0..Cap
+(* no goroutine is left behind: once the parser has stopped the lexer exits, and (with Drain) the call does not return before *)
+LexerExits == (ppc # "run") ~> (lpc = "exited")
+ParserReturns == (ppc = "closing") ~> (ppc = "returned")
+NoLexerAtReturn == Drain => (ppc = "returned" => lpc = "exited")
 (* the parser is never blocked for good: whenever it wants another token it gets one or the channel is closed *)
 ParserNeverStuck == [](ppc = "run" => (lpc = "send" \/ closed \/ nbuf > 0))
 (* every token is received at most once and in order *)
